@@ -1,17 +1,1602 @@
-//! C03 — correspondence driver (stub: not built yet).
+//! C03 — tensor and matrix arithmetic.  See lean/Driver/C03.lean for the protocol.
+//!
+//! Operand forms (`via=<left>-<right>`), tensors:
+//!   t / rt        `Tensor` by value / by reference                    (plain tensors only)
+//!   v / rv        `TensorView<T, Tensor<T, D>, D>` by value / by reference   (plain tensors only)
+//!   qv / rqv      `TensorView<T, &Tensor<T, D>, D>`                     (plain tensors only)
+//!   av / rav      `TensorView<T, TensorAccess<T, Tensor<T, D>, D>, D>`  (exactly one `access` adaptor)
+//!   xv / rxv      `TensorView<T, TensorTranspose<T, Tensor<T, D>, D>, D>` (exactly one `transpose`)
+//!   bv / rbv      `TensorView<T, Box<dyn TensorRef<T, D>>, D>`          (any adaptor chain)
+//! matrices: m / rm, w / rw (`MatrixView<T, Matrix<T>>`), qw / rqw (`MatrixView<T, &Matrix<T>>`),
+//!   gw / rgw (`MatrixView<T, MatrixRange<T, Matrix<T>>>`, exactly one `range`), bw / rbw (boxed),
+//!   tw / rtw (`MatrixView<T, MatrixRefTensor<T, TensorAccess<T, Tensor<T, 2>, 2>>>`: a matrix view
+//!   of a tensor accessed in another dimension order — its `data_layout()` is `ColumnMajor`).
+//! The 16 forms of the operator macros are {owned, borrowed} x {container, view} on each side;
+//! every view flavour above counts as "view".
 
+use crate::exact::{Fp, Rat, P};
 use crate::util::*;
+use easy_ml::interop::MatrixRefTensor;
+use easy_ml::matrices::views::{MatrixRange, MatrixRef, MatrixReverse, MatrixView, Reverse};
+use easy_ml::matrices::Matrix;
+use easy_ml::tensors::indexing::{TensorAccess, TensorTranspose};
+use easy_ml::tensors::views::{TensorRange, TensorRef, TensorRename, TensorReverse, TensorView};
+use easy_ml::tensors::Tensor;
 
-pub fn gen(_g: &mut Gen) {}
+// ---------------------------------------------------------------------------------------------
+// element types
+// ---------------------------------------------------------------------------------------------
 
-pub struct Runner;
+pub trait Elem: Clone + 'static {
+    fn parse(s: &str) -> Self;
+    fn show(&self) -> String;
+}
+impl Elem for Fp {
+    fn parse(s: &str) -> Fp { Fp::new(s.parse::<u64>().expect("fp")) }
+    fn show(&self) -> String { self.0.to_string() }
+}
+impl Elem for Rat {
+    fn parse(s: &str) -> Rat {
+        match s.split_once('/') {
+            Some((n, d)) => Rat::new(n.parse().expect("rat n"), d.parse().expect("rat d")),
+            None => Rat::new(s.parse().expect("rat"), 1),
+        }
+    }
+    fn show(&self) -> String { format!("{}", self) }
+}
+/// `f64` runs use integer-valued data only: `+ - *` on small integers are exact in binary
+/// floating point, so the answers are compared as integers with the integer model (division and
+/// rounding behaviour of floats are not part of these runs).
+impl Elem for f64 {
+    fn parse(s: &str) -> f64 { s.parse::<i64>().expect("integer-valued f64") as f64 }
+    fn show(&self) -> String {
+        assert!(self.fract() == 0.0 && self.abs() < 9.0e15, "f64 run left the exact integer range");
+        (*self as i64).to_string()
+    }
+}
+impl Elem for i64 {
+    fn parse(s: &str) -> i64 { s.parse().expect("i64") }
+    fn show(&self) -> String { self.to_string() }
+}
+
+fn show_vals<T: Elem>(v: impl Iterator<Item = T>) -> String {
+    let s: Vec<String> = v.map(|x| x.show()).collect();
+    if s.is_empty() { "-".into() } else { s.join(",") }
+}
+
+fn parse_pairs(s: &str) -> Vec<(usize, usize)> {
+    split_comma(s)
+        .iter()
+        .map(|p| {
+            let (a, b) = p.split_once(':').expect("start:len");
+            (a.parse().unwrap(), b.parse().unwrap())
+        })
+        .collect()
+}
+
+// ---------------------------------------------------------------------------------------------
+// generation
+// ---------------------------------------------------------------------------------------------
+
+const T_PLAIN: [&str; 8] = ["t", "rt", "v", "rv", "qv", "rqv", "bv", "rbv"];
+const T_ACCESS: [&str; 4] = ["av", "rav", "bv", "rbv"];
+const T_TRANSPOSE: [&str; 4] = ["xv", "rxv", "bv", "rbv"];
+const T_BOXED: [&str; 2] = ["bv", "rbv"];
+const T_LITE: [&str; 4] = ["t", "rt", "bv", "rbv"];
+const M_LITE: [&str; 4] = ["m", "rm", "bw", "rbw"];
+const M_PLAIN: [&str; 8] = ["m", "rm", "w", "rw", "qw", "rqw", "bw", "rbw"];
+const M_RANGE: [&str; 4] = ["gw", "rgw", "bw", "rbw"];
+const M_BOXED: [&str; 2] = ["bw", "rbw"];
+const M_TENSOR: [&str; 4] = ["tw", "rtw", "bw", "rbw"];
+
+fn is_main_t(f: &str) -> bool {
+    matches!(f, "t" | "rt" | "v" | "rv" | "bv" | "rbv")
+}
+fn is_main_m(f: &str) -> bool {
+    matches!(f, "m" | "rm" | "w" | "rw" | "bw" | "rbw")
+}
+/// the main flavour with the same macro form as an extra flavour
+fn main_of(f: &'static str) -> &'static str {
+    match f {
+        "qv" => "v", "rqv" => "rv", "av" | "xv" => "bv", "rav" | "rxv" => "rbv",
+        "qw" => "w", "rqw" => "rw", "gw" | "tw" => "bw", "rgw" | "rtw" => "rbw",
+        other => other,
+    }
+}
+/// the harness pairs an extra (statically typed) flavour only with `rt`/`bv` (`rm`/`bw`)
+fn fix_pair(lf: &'static str, rf: &'static str) -> (&'static str, &'static str) {
+    let main = |f: &str| is_main_t(f) || is_main_m(f);
+    let two = |f: &str| matches!(f, "rt" | "bv" | "rm" | "bw");
+    if main(lf) && main(rf) {
+        (lf, rf)
+    } else if !main(lf) && two(rf) {
+        (lf, rf)
+    } else if !main(rf) && two(lf) {
+        (lf, rf)
+    } else if !main(lf) && !main(rf) {
+        (main_of(lf), main_of(rf))
+    } else if !main(lf) {
+        (main_of(lf), rf)
+    } else {
+        (lf, main_of(rf))
+    }
+}
+
+/// which of the four macro forms (owned/borrowed x container/view) a flavour belongs to
+fn base_form(f: &str) -> &'static str {
+    match f {
+        "t" | "m" => "owned-container",
+        "rt" | "rm" => "ref-container",
+        _ if f.starts_with('r') => "ref-view",
+        _ => "owned-view",
+    }
+}
+
+#[derive(Clone, Copy, PartialEq)]
+enum Ety { Fp, Rat, I64, F64 }
+
+impl Ety {
+    fn name(self) -> &'static str {
+        match self { Ety::Fp => "fp", Ety::Rat => "rat", Ety::I64 => "i64", Ety::F64 => "f64" }
+    }
+}
+
+fn rand_val(g: &mut Gen, e: Ety) -> String {
+    match e {
+        Ety::Fp => match g.rng.below(12) {
+            0 => "0".into(),
+            1 => "1".into(),
+            2 => (P - 1).to_string(),
+            _ => (g.rng.next() % P).to_string(),
+        },
+        Ety::Rat => {
+            let n = g.rng.below(19) as i64 - 9;
+            let d = g.rng.range(1, 4) as i64;
+            Rat::new(n as i128, d as i128).show()
+        }
+        Ety::I64 | Ety::F64 => (g.rng.below(41) as i64 - 20).to_string(),
+    }
+}
+
+fn rand_vals(g: &mut Gen, e: Ety, n: usize) -> String {
+    if n == 0 {
+        return "-".into();
+    }
+    (0..n).map(|_| rand_val(g, e)).collect::<Vec<_>>().join(",")
+}
+
+/// An operand available in the current case: its name, its view shape and the forms it admits.
+#[derive(Clone)]
+struct GOp {
+    name: String,
+    shape: Vec<(&'static str, usize)>,
+    forms: &'static [&'static str],
+    kind: &'static str,
+}
+
+struct CaseGen<'a> {
+    g: &'a mut Gen,
+    e: Ety,
+    next: usize,
+}
+
+impl<'a> CaseGen<'a> {
+    fn new(g: &'a mut Gen, e: Ety) -> CaseGen<'a> {
+        g.op(format!("@ {}", e.name()));
+        g.count(&format!("case.ety={}", e.name()));
+        CaseGen { g, e, next: 0 }
+    }
+    fn fresh(&mut self, prefix: &str) -> String {
+        self.next += 1;
+        format!("{}{}", prefix, self.next)
+    }
+    fn tensor(&mut self, shape: &[(&'static str, usize)]) -> GOp {
+        let name = self.fresh("T");
+        let n: usize = shape.iter().map(|d| d.1).product();
+        let vals = rand_vals(self.g, self.e, n);
+        self.g.op(format!("t {} {} {}", name, show_shape(shape), vals));
+        let forms: &'static [&'static str] = if self.e != Ety::Fp { &T_LITE } else { &T_PLAIN };
+        GOp { name, shape: shape.to_vec(), forms, kind: "tensor" }
+    }
+    /// a view with view shape `shape` whose iteration order differs from its storage order (or
+    /// that at least goes through the adaptor's index mapping)
+    fn view_with_shape(&mut self, shape: &[(&'static str, usize)], kind: usize) -> GOp {
+        let d = shape.len();
+        let mut perm: Vec<usize> = (0..d).collect();
+        self.g.rng.shuffle(&mut perm);
+        match kind {
+            0 => {
+                // TensorAccess: source has the dimensions in permuted order
+                let src: Vec<(&'static str, usize)> = perm.iter().map(|&p| shape[p]).collect();
+                let s = self.tensor(&src);
+                let name = self.fresh("V");
+                let names: Vec<&str> = shape.iter().map(|d| d.0).collect();
+                self.g.op(format!("v {} {} access {}", name, s.name, show_names(&names)));
+                self.g.count("operand.view.access");
+                if perm.iter().enumerate().any(|(i, &p)| i != p) {
+                    self.g.count("operand.view.order_differs_from_storage");
+                }
+                let forms: &'static [&'static str] = if self.e != Ety::Fp { &T_BOXED } else { &T_ACCESS };
+                GOp { name, shape: shape.to_vec(), forms, kind: "access" }
+            }
+            1 => {
+                // TensorTranspose: names stay in source order, lengths follow the request.
+                // source names = shape names (in order), source length of name n = shape length
+                // at the position where n is requested.
+                // request order `req` (a permutation of the names); view length at position i is the
+                // source length of req[i]; so source length of req[i] must be shape[i].1
+                let req: Vec<&'static str> = perm.iter().map(|&p| shape[p].0).collect();
+                let mut src: Vec<(&'static str, usize)> = shape.to_vec();
+                for (i, n) in req.iter().enumerate() {
+                    let pos = shape.iter().position(|d| d.0 == *n).unwrap();
+                    src[pos].1 = shape[i].1;
+                }
+                let s = self.tensor(&src);
+                let name = self.fresh("V");
+                self.g.op(format!("v {} {} transpose {}", name, s.name, show_names(&req)));
+                self.g.count("operand.view.transpose");
+                if perm.iter().enumerate().any(|(i, &p)| i != p) {
+                    self.g.count("operand.view.order_differs_from_storage");
+                }
+                let forms: &'static [&'static str] = if self.e != Ety::Fp { &T_BOXED } else { &T_TRANSPOSE };
+                GOp { name, shape: shape.to_vec(), forms, kind: "transpose" }
+            }
+            2 => {
+                // TensorRange of a larger tensor
+                let mut src = shape.to_vec();
+                let mut ranges = vec![];
+                for dd in src.iter_mut() {
+                    let before = self.g.rng.below(3);
+                    let after = self.g.rng.below(3);
+                    ranges.push(format!("{}:{}", before, dd.1));
+                    dd.1 += before + after;
+                }
+                let s = self.tensor(&src);
+                let name = self.fresh("V");
+                let r = if ranges.is_empty() { "-".to_string() } else { ranges.join(",") };
+                self.g.op(format!("v {} {} range {}", name, s.name, r));
+                self.g.count("operand.view.range");
+                GOp { name, shape: shape.to_vec(), forms: &T_BOXED, kind: "range" }
+            }
+            3 => {
+                // TensorReverse of some dimensions
+                let s = self.tensor(shape);
+                let name = self.fresh("V");
+                let mut names: Vec<&str> = shape.iter().map(|d| d.0).filter(|_| self.g.rng.chance(2, 3)).collect();
+                self.g.rng.shuffle(&mut names);
+                self.g.op(format!("v {} {} reverse {}", name, s.name, show_names(&names)));
+                self.g.count("operand.view.reverse");
+                if shape.iter().any(|d| names.contains(&d.0) && d.1 > 1) {
+                    self.g.count("operand.view.order_differs_from_storage");
+                }
+                GOp { name, shape: shape.to_vec(), forms: &T_BOXED, kind: "reverse" }
+            }
+            4 => {
+                // TensorRename from other names
+                let src: Vec<(&'static str, usize)> =
+                    shape.iter().enumerate().map(|(i, d)| (intern(&format!("n{}", i)), d.1)).collect();
+                let s = self.tensor(&src);
+                let name = self.fresh("V");
+                let names: Vec<&str> = shape.iter().map(|d| d.0).collect();
+                self.g.op(format!("v {} {} rename {}", name, s.name, show_names(&names)));
+                self.g.count("operand.view.rename");
+                GOp { name, shape: shape.to_vec(), forms: &T_BOXED, kind: "rename" }
+            }
+            _ => {
+                // a chain: access over reverse over range
+                let src: Vec<(&'static str, usize)> = perm.iter().map(|&p| (shape[p].0, shape[p].1 + 1)).collect();
+                let s = self.tensor(&src);
+                let n1 = self.fresh("V");
+                let ranges: Vec<String> = src.iter().map(|d| format!("{}:{}", self.g.rng.below(2), d.1 - 1)).collect();
+                let r = if ranges.is_empty() { "-".to_string() } else { ranges.join(",") };
+                self.g.op(format!("v {} {} range {}", n1, s.name, r));
+                let n2 = self.fresh("V");
+                let rev: Vec<&str> = src.iter().map(|d| d.0).filter(|_| self.g.rng.chance(1, 2)).collect();
+                self.g.op(format!("v {} {} reverse {}", n2, n1, show_names(&rev)));
+                let name = self.fresh("V");
+                let names: Vec<&str> = shape.iter().map(|d| d.0).collect();
+                self.g.op(format!("v {} {} access {}", name, n2, show_names(&names)));
+                self.g.count("operand.view.chain3");
+                self.g.count("operand.view.order_differs_from_storage");
+                GOp { name, shape: shape.to_vec(), forms: &T_BOXED, kind: "chain" }
+            }
+        }
+    }
+    fn matrix(&mut self, rows: usize, cols: usize) -> GOp {
+        let name = self.fresh("M");
+        let vals = rand_vals(self.g, self.e, rows * cols);
+        self.g.op(format!("m {} {} {} {}", name, rows, cols, vals));
+        let forms: &'static [&'static str] = if self.e != Ety::Fp { &M_LITE } else { &M_PLAIN };
+        GOp { name, shape: vec![("row", rows), ("column", cols)], forms, kind: "matrix" }
+    }
+    fn matrix_view(&mut self, rows: usize, cols: usize, kind: usize) -> GOp {
+        match kind {
+            0 => {
+                let (rb, ra, cb, ca) = (self.g.rng.below(3), self.g.rng.below(2), self.g.rng.below(3), self.g.rng.below(2));
+                let s = self.matrix(rows + rb + ra, cols + cb + ca);
+                let name = self.fresh("W");
+                self.g.op(format!("w {} {} range {}:{} {}:{}", name, s.name, rb, rows, cb, cols));
+                self.g.count("operand.matrixview.range");
+                let forms: &'static [&'static str] = if self.e != Ety::Fp { &M_BOXED } else { &M_RANGE };
+                GOp { name, shape: vec![("row", rows), ("column", cols)], forms, kind: "mrange" }
+            }
+            1 => {
+                let s = self.matrix(rows, cols);
+                let name = self.fresh("W");
+                let flags = ["01", "10", "11"][self.g.rng.below(3)];
+                self.g.op(format!("w {} {} reverse {}", name, s.name, flags));
+                self.g.count("operand.matrixview.reverse");
+                GOp { name, shape: vec![("row", rows), ("column", cols)], forms: &M_BOXED, kind: "mreverse" }
+            }
+            3 | 4 | 5 | 6 => {
+                // MatrixRefTensor over a tensor view: 3 = TensorAccess in swapped dimension order
+                // (data_layout ColumnMajor), 4 = the same with a MatrixRange on top, 5 = a
+                // TensorTranspose, 6 = the plain tensor (RowMajor)
+                let (extra_r, extra_c) = if kind == 4 { (self.g.rng.below(2) + 1, self.g.rng.below(2)) } else { (0, 0) };
+                let (tr, tc) = (rows + extra_r, cols + extra_c);
+                let view_name = match kind {
+                    3 | 4 => {
+                        let t = self.tensor(&[(intern("c"), tc), (intern("r"), tr)]);
+                        let v = self.fresh("V");
+                        self.g.op(format!("v {} {} access r,c", v, t.name));
+                        v
+                    }
+                    5 => {
+                        let t = self.tensor(&[(intern("r"), tc), (intern("c"), tr)]);
+                        let v = self.fresh("V");
+                        self.g.op(format!("v {} {} transpose c,r", v, t.name));
+                        v
+                    }
+                    _ => self.tensor(&[(intern("r"), tr), (intern("c"), tc)]).name,
+                };
+                let w = self.fresh("W");
+                self.g.op(format!("w {} {} oftensor", w, view_name));
+                self.g.count(&format!("operand.matrixview.oftensor.kind{}", kind));
+                if kind == 4 {
+                    let name = self.fresh("W");
+                    let (rb, cb) = (self.g.rng.below(extra_r + 1), self.g.rng.below(extra_c + 1));
+                    self.g.op(format!("w {} {} range {}:{} {}:{}", name, w, rb, rows, cb, cols));
+                    return GOp { name, shape: vec![("row", rows), ("column", cols)], forms: &M_BOXED, kind: "moftensor_range" };
+                }
+                let forms: &'static [&'static str] = if self.e == Ety::Fp && kind == 3 { &M_TENSOR } else { &M_BOXED };
+                GOp { name: w, shape: vec![("row", rows), ("column", cols)], forms, kind: "moftensor" }
+            }
+            _ => {
+                let s = self.matrix(rows + 1, cols + 1);
+                let n1 = self.fresh("W");
+                self.g.op(format!("w {} {} reverse 11", n1, s.name));
+                let name = self.fresh("W");
+                let (rb, cb) = (self.g.rng.below(2), self.g.rng.below(2));
+                self.g.op(format!("w {} {} range {}:{} {}:{}", name, n1, rb, rows, cb, cols));
+                self.g.count("operand.matrixview.chain2");
+                GOp { name, shape: vec![("row", rows), ("column", cols)], forms: &M_BOXED, kind: "mchain" }
+            }
+        }
+    }
+    fn pick_form(&mut self, o: &GOp, want: &str) -> &'static str {
+        // a flavour of `o` belonging to the macro form `want`, if it has one
+        let c: Vec<&'static str> = o.forms.iter().copied().filter(|f| base_form(f) == want).collect();
+        if c.is_empty() { o.forms[self.g.rng.below(o.forms.len())] } else { c[self.g.rng.below(c.len())] }
+    }
+    fn pick_from(&mut self, o: &GOp, want: &str, allowed: &[&str]) -> &'static str {
+        let all: Vec<&'static str> = o.forms.iter().copied().filter(|f| allowed.contains(f)).collect();
+        let c: Vec<&'static str> = all.iter().copied().filter(|f| base_form(f) == want).collect();
+        if c.is_empty() { all[self.g.rng.below(all.len())] } else { c[self.g.rng.below(c.len())] }
+    }
+    fn binop(&mut self, op: &str, l: &GOp, r: &GOp, lf: &'static str, rf: &'static str, tag: &str) {
+        let (lf, rf) = if op == "dot" { (lf, rf) } else { fix_pair(lf, rf) };
+        if !(is_main_t(lf) || is_main_m(lf)) || !(is_main_t(rf) || is_main_m(rf)) {
+            self.g.count(&format!("{}.{}.static_flavour.{}", tag, op, if is_main_t(lf) || is_main_m(lf) { rf } else { lf }));
+        }
+        self.g.op(format!("{} {} {} via={}-{}", op, l.name, r.name, lf, rf));
+        self.g.count(&format!("{}.{}.form.{}+{}", tag, op, base_form(lf), base_form(rf)));
+        self.g.count(&format!("{}.{}.operands.{}+{}", tag, op, l.kind, r.kind));
+    }
+}
+
+const RECEIVERS: [&str; 4] = ["rt", "rv", "rav", "rbv"];
+const RHS: [&str; 5] = ["t", "rt", "rv", "bv", "rbv"];
+const FORMS4: [&str; 4] = ["owned-container", "ref-container", "owned-view", "ref-view"];
+
+fn names_for(g: &mut Gen, d: usize) -> Vec<&'static str> {
+    let mut pool = vec!["a", "b", "c", "d", "row", "column", "x", "y"];
+    g.rng.shuffle(&mut pool);
+    pool[..d].iter().map(|n| intern(n)).collect()
+}
+
+/// every pair of the 16 macro forms, for `+`, `-` (and `elementwise`) on same-shape operands,
+/// where the view operands iterate in an order different from their storage order
+fn gen_elementwise_case(g: &mut Gen, e: Ety, lens: &[usize]) {
+    let names = names_for(g, lens.len());
+    let shape: Vec<(&'static str, usize)> = names.iter().copied().zip(lens.iter().copied()).collect();
+    g.count(&format!("elementwise.D={}", lens.len()));
+    g.count(&format!("elementwise.elements={}", lens.iter().product::<usize>()));
+    let mut c = CaseGen::new(g, e);
+    let a = c.tensor(&shape);
+    let b = c.tensor(&shape);
+    let k1 = c.g.rng.below(6);
+    let k2 = c.g.rng.below(6);
+    let v1 = c.view_with_shape(&shape, k1);
+    let v2 = c.view_with_shape(&shape, k2);
+    for op in ["add", "sub"] {
+        for lw in FORMS4 {
+            for rw in FORMS4 {
+                let l = if lw.ends_with("container") { if c.g.rng.chance(1, 2) { &a } else { &b } } else {
+                    match c.g.rng.below(4) { 0 => &a, 1 | 2 => &v1, _ => &v2 }
+                };
+                let r = if rw.ends_with("container") { if c.g.rng.chance(1, 2) { &a } else { &b } } else {
+                    match c.g.rng.below(4) { 0 => &b, 1 | 2 => &v2, _ => &v1 }
+                };
+                let lf = c.pick_form(l, lw);
+                let rf = c.pick_form(r, rw);
+                c.binop(op, l, r, lf, rf, "tensor");
+            }
+        }
+    }
+    // Tensor::elementwise* / TensorView::elementwise* (left by reference, right anything)
+    for kind in ["e", "ei", "er", "eri"] {
+        let (l, r) = match c.g.rng.below(4) { 0 => (&a, &v1), 1 => (&v1, &b), 2 => (&v2, &v1), _ => (&a, &b) };
+        let lw = if l.kind == "tensor" && c.g.rng.chance(1, 2) { "ref-container" } else { "ref-view" };
+        let lf = c.pick_from(l, lw, &RECEIVERS);
+        let rw = FORMS4[c.g.rng.below(4)];
+        let rf = c.pick_from(r, rw, &RHS);
+        c.g.op(format!("ewise {} {} via={}-{}-{}", l.name, r.name, lf, rf, kind));
+        c.g.count(&format!("tensor.ewise.{}", kind));
+    }
+}
+
+/// mismatching pairs, enumerated from the documented rejection table of elementwise operations
+fn gen_elementwise_reject_case(g: &mut Gen, e: Ety, lens: &[usize]) {
+    let d = lens.len();
+    if d == 0 {
+        return;
+    }
+    let names = names_for(g, d + 1);
+    let shape: Vec<(&'static str, usize)> = names[..d].iter().copied().zip(lens.iter().copied()).collect();
+    let mut c = CaseGen::new(g, e);
+    let a = c.tensor(&shape);
+    let mut others: Vec<(&str, Vec<(&'static str, usize)>)> = vec![];
+    // a different name in one position
+    let mut s = shape.clone();
+    let p = c.g.rng.below(d);
+    s[p].0 = names[d];
+    others.push(("different_name", s));
+    // a different length in one position
+    let mut s = shape.clone();
+    let p = c.g.rng.below(d);
+    s[p].1 += 1;
+    others.push(("different_length", s));
+    if shape[p].1 > 1 {
+        let mut s = shape.clone();
+        s[p].1 -= 1;
+        others.push(("different_length", s));
+    }
+    if d >= 2 {
+        // same dimensions in another order ("similar" tensors are still rejected)
+        let mut s = shape.clone();
+        s.swap(0, d - 1);
+        others.push(("name_order", s));
+        // names swapped but lengths in place
+        let mut s = shape.clone();
+        let (n0, n1) = (s[0].0, s[d - 1].0);
+        s[0].0 = n1;
+        s[d - 1].0 = n0;
+        others.push(("names_swapped", s));
+        // lengths swapped but names in place
+        if shape[0].1 != shape[d - 1].1 {
+            let mut s = shape.clone();
+            let (l0, l1) = (s[0].1, s[d - 1].1);
+            s[0].1 = l1;
+            s[d - 1].1 = l0;
+            others.push(("lengths_swapped", s));
+        }
+    }
+    for (why, s) in others {
+        let o = if c.g.rng.chance(1, 2) { c.tensor(&s) } else { let k = c.g.rng.below(6); c.view_with_shape(&s, k) };
+        for op in ["add", "sub", "ewise"] {
+            let (l, r) = if c.g.rng.chance(1, 2) { (&a, &o) } else { (&o, &a) };
+            let lw = FORMS4[c.g.rng.below(4)];
+            let rw = FORMS4[c.g.rng.below(4)];
+            if op == "ewise" {
+                let lw2 = if c.g.rng.chance(1, 2) { "ref-container" } else { "ref-view" };
+                let lf = c.pick_from(l, lw2, &RECEIVERS);
+                let rf = c.pick_from(r, rw, &RHS);
+                let kind = ["e", "ei", "er", "eri"][c.g.rng.below(4)];
+                c.g.op(format!("ewise {} {} via={}-{}-{}", l.name, r.name, lf, rf, kind));
+            } else {
+                let lf = c.pick_form(l, lw);
+                let rf = c.pick_form(r, rw);
+                c.binop(op, l, r, lf, rf, "tensor.reject");
+            }
+            c.g.count(&format!("reject.elementwise.{}", why));
+        }
+    }
+}
+
+fn gen_matmul_case(g: &mut Gen, e: Ety, m: usize, n: usize, l: usize) {
+    g.count(&format!("matmul.shape={}x{}.{}x{}", m, n, n, l));
+    let mut c = CaseGen::new(g, e);
+    // names: the inner names are free (equal or different), outer names must differ
+    let pool = ["r", "c", "x", "y"];
+    let ln0 = pool[c.g.rng.below(2)];
+    let ln1 = *pool.iter().filter(|p| **p != ln0).nth(c.g.rng.below(3)).unwrap();
+    let rn1 = *pool.iter().filter(|p| **p != ln0).nth(c.g.rng.below(3)).unwrap();
+    let rn0 = *pool.iter().filter(|p| **p != rn1).nth(c.g.rng.below(3)).unwrap();
+    let ls = vec![(intern(ln0), m), (intern(ln1), n)];
+    let rs = vec![(intern(rn0), n), (intern(rn1), l)];
+    let a = c.tensor(&ls);
+    let b = c.tensor(&rs);
+    let (k1, k2) = (c.g.rng.below(6), c.g.rng.below(6));
+    let va = c.view_with_shape(&ls, k1);
+    let vb = c.view_with_shape(&rs, k2);
+    for lw in FORMS4 {
+        for rw in FORMS4 {
+            let lo = if lw.ends_with("container") || c.g.rng.chance(1, 4) { &a } else { &va };
+            let ro = if rw.ends_with("container") || c.g.rng.chance(1, 4) { &b } else { &vb };
+            let lf = c.pick_form(lo, lw);
+            let rf = c.pick_form(ro, rw);
+            c.binop("mul", lo, ro, lf, rf, "tensor");
+        }
+    }
+    // the same data through the matrix API
+    let am = c.matrix(m, n);
+    let bm = c.matrix(n, l);
+    let (k1, k2) = (c.g.rng.below(7), c.g.rng.below(7));
+    let wa = c.matrix_view(m, n, k1);
+    let wb = c.matrix_view(n, l, k2);
+    for lw in FORMS4 {
+        for rw in FORMS4 {
+            let lo = if lw.ends_with("container") || c.g.rng.chance(1, 4) { &am } else { &wa };
+            let ro = if rw.ends_with("container") || c.g.rng.chance(1, 4) { &bm } else { &wb };
+            let lf = c.pick_form(lo, lw);
+            let rf = c.pick_form(ro, rw);
+            c.binop("mul", lo, ro, lf, rf, "matrix");
+        }
+    }
+}
+
+/// tensor and matrix APIs on literally the same data (the answers carry the same `data=`)
+fn gen_agree_case(g: &mut Gen, e: Ety, m: usize, n: usize, l: usize) {
+    g.op(format!("@ {}", e.name()));
+    g.count("agree.case");
+    let av = rand_vals(g, e, m * n);
+    let bv = rand_vals(g, e, n * l);
+    let cv = rand_vals(g, e, m * n);
+    let s = rand_val(g, e);
+    g.op(format!("t TA r:{},c:{} {}", m, n, av));
+    g.op(format!("t TB x:{},y:{} {}", n, l, bv));
+    g.op(format!("t TC r:{},c:{} {}", m, n, cv));
+    g.op(format!("m MA {} {} {}", m, n, av));
+    g.op(format!("m MB {} {} {}", n, l, bv));
+    g.op(format!("m MC {} {} {}", m, n, cv));
+    g.op("mul TA TB via=rt-rt".to_string());
+    g.op("mul MA MB via=rm-rm".to_string());
+    g.op("add TA TC via=rt-rt".to_string());
+    g.op("add MA MC via=rm-rm".to_string());
+    g.op("sub TA TC via=rt-rt".to_string());
+    g.op("sub MA MC via=rm-rm".to_string());
+    g.op(format!("smul TA {} via=rt-s", s));
+    g.op(format!("smul MA {} via=rm-s", s));
+}
+
+fn gen_matmul_reject_case(g: &mut Gen, e: Ety) {
+    let mut c = CaseGen::new(g, e);
+    let m = c.g.rng.range(1, 3);
+    let n = c.g.rng.range(1, 3);
+    let l = c.g.rng.range(1, 3);
+    // (why, left shape, right shape)
+    let mut table: Vec<(&str, Vec<(&'static str, usize)>, Vec<(&'static str, usize)>)> = vec![];
+    table.push(("inner_length", vec![("r", m), ("c", n)], vec![("x", n + 1), ("y", l)]));
+    table.push(("inner_length", vec![("r", m), ("c", n + 1)], vec![("x", n), ("y", l)]));
+    // swapped right operand: inner lengths differ unless n == l
+    if n != l {
+        table.push(("inner_length", vec![("r", m), ("c", n)], vec![("y", l), ("x", n)]));
+    }
+    table.push(("result_names_collide", vec![("r", m), ("c", n)], vec![("c", n), ("r", l)]));
+    table.push(("result_names_collide", vec![("r", m), ("c", n)], vec![("x", n), ("r", l)]));
+    table.push(("both", vec![("r", m), ("c", n)], vec![("c", n + 1), ("r", l)]));
+    // accepted neighbours of the table
+    table.push(("accepted_same_names", vec![("r", m), ("c", n)], vec![("r", n), ("c", l)]));
+    table.push(("accepted_inner_names_differ", vec![("r", m), ("c", n)], vec![("x", n), ("c", l)]));
+    for (why, ls, rs) in table {
+        let ls: Vec<(&'static str, usize)> = ls.iter().map(|d| (intern(d.0), d.1)).collect();
+        let rs: Vec<(&'static str, usize)> = rs.iter().map(|d| (intern(d.0), d.1)).collect();
+        let lo = if c.g.rng.chance(1, 2) { c.tensor(&ls) } else { let k = c.g.rng.below(6); c.view_with_shape(&ls, k) };
+        let ro = if c.g.rng.chance(1, 2) { c.tensor(&rs) } else { let k = c.g.rng.below(6); c.view_with_shape(&rs, k) };
+        let lw = FORMS4[c.g.rng.below(4)];
+        let rw = FORMS4[c.g.rng.below(4)];
+        let lf = c.pick_form(&lo, lw);
+        let rf = c.pick_form(&ro, rw);
+        c.binop("mul", &lo, &ro, lf, rf, "tensor.reject");
+        c.g.count(&format!("reject.matmul.{}", why));
+    }
+    // matrices: only the inner sizes can mismatch; elementwise: sizes differ
+    for (why, (a, b), (x, y), op) in [
+        ("matrix_inner", (m, n), (n + 1, l), "mul"),
+        ("matrix_inner", (m, n + 1), (n, l), "mul"),
+        ("matrix_size_rows", (m, n), (m + 1, n), "add"),
+        ("matrix_size_columns", (m, n), (m, n + 1), "sub"),
+        ("matrix_size_transposed", (m, n + 1), (n + 1, m), "add"),
+    ] {
+        if why == "matrix_size_transposed" && m == n + 1 {
+            continue;
+        }
+        let lo = if c.g.rng.chance(1, 2) { c.matrix(a, b) } else { let k = c.g.rng.below(7); c.matrix_view(a, b, k) };
+        let ro = if c.g.rng.chance(1, 2) { c.matrix(x, y) } else { let k = c.g.rng.below(7); c.matrix_view(x, y, k) };
+        let lw = FORMS4[c.g.rng.below(4)];
+        let rw = FORMS4[c.g.rng.below(4)];
+        let lf = c.pick_form(&lo, lw);
+        let rf = c.pick_form(&ro, rw);
+        c.binop(op, &lo, &ro, lf, rf, "matrix.reject");
+        c.g.count(&format!("reject.{}", why));
+    }
+}
+
+fn gen_matrix_elementwise_case(g: &mut Gen, e: Ety, rows: usize, cols: usize) {
+    g.count(&format!("matrix.elementwise.size={}x{}", rows, cols));
+    let mut c = CaseGen::new(g, e);
+    let a = c.matrix(rows, cols);
+    let b = c.matrix(rows, cols);
+    // the second view is always a matrix view of a tensor in swapped order (column-major source)
+    let (k1, k2) = (c.g.rng.below(7), 3 + c.g.rng.below(3));
+    let w1 = c.matrix_view(rows, cols, k1);
+    let w2 = c.matrix_view(rows, cols, k2);
+    for op in ["add", "sub"] {
+        for lw in FORMS4 {
+            for rw in FORMS4 {
+                let l = if lw.ends_with("container") { &a } else if c.g.rng.chance(1, 4) { &b } else { &w1 };
+                let r = if rw.ends_with("container") { &b } else if c.g.rng.chance(1, 4) { &a } else { &w2 };
+                let lf = c.pick_form(l, lw);
+                let rf = c.pick_form(r, rw);
+                c.binop(op, l, r, lf, rf, "matrix");
+            }
+        }
+    }
+    // negation and scalar broadcasts
+    for o in [&a, &w1, &w2] {
+        for f in o.forms.iter() {
+            c.g.op(format!("neg {} via={}", o.name, f));
+            c.g.count(&format!("matrix.neg.form.{}", base_form(f)));
+            c.g.op(format!("mmap {} via={}", o.name, f));
+            c.g.count(&format!("matrix.map.form.{}", base_form(f)));
+            c.g.count(&format!("matrix.neg_map.operand.{}", o.kind));
+        }
+        for op in ["sadd", "ssub", "smul", "sdiv"] {
+            for sf in ["s", "rs"] {
+                let f = o.forms[c.g.rng.below(o.forms.len())];
+                let mut s = rand_val(c.g, c.e);
+                if op == "sdiv" && c.e == Ety::F64 {
+                    continue;
+                }
+                if op == "sdiv" && c.e == Ety::I64 && s == "0" {
+                    s = "3".into();
+                }
+                c.g.op(format!("{} {} {} via={}-{}", op, o.name, s, f, sf));
+                c.g.count(&format!("matrix.{}.form.{}+{}", op, base_form(f), sf));
+            }
+        }
+    }
+}
+
+fn gen_scalar_case(g: &mut Gen, e: Ety, lens: &[usize]) {
+    let names = names_for(g, lens.len());
+    let shape: Vec<(&'static str, usize)> = names.iter().copied().zip(lens.iter().copied()).collect();
+    let mut c = CaseGen::new(g, e);
+    let a = c.tensor(&shape);
+    let k = c.g.rng.below(6);
+    let v = c.view_with_shape(&shape, k);
+    for o in [&a, &v] {
+        for op in ["sadd", "ssub", "smul", "sdiv"] {
+            for f in o.forms.iter() {
+                let sf = if c.g.rng.chance(1, 2) { "s" } else { "rs" };
+                let mut s = rand_val(c.g, c.e);
+                if op == "sdiv" && c.e == Ety::F64 {
+                    continue;
+                }
+                if op == "sdiv" && c.e == Ety::I64 && s == "0" {
+                    s = "-7".into();
+                }
+                if op == "sdiv" && s == "0" {
+                    c.g.count("scalar.divide_by_zero");
+                }
+                c.g.op(format!("{} {} {} via={}-{}", op, o.name, s, f, sf));
+                c.g.count(&format!("tensor.{}.form.{}+{}", op, base_form(f), sf));
+            }
+        }
+    }
+}
+
+fn gen_dot_case(g: &mut Gen, e: Ety, n: usize) {
+    g.count(&format!("dot.length={}", n));
+    let mut c = CaseGen::new(g, e);
+    let shape = vec![(intern("s"), n)];
+    let a = c.tensor(&shape);
+    let b = c.tensor(&shape);
+    let (k1, k2) = (c.g.rng.below(6), c.g.rng.below(6));
+    let v1 = c.view_with_shape(&shape, k1);
+    let v2 = c.view_with_shape(&shape, k2);
+    for lw in ["ref-container", "ref-view"] {
+        for rw in FORMS4 {
+            let l = if lw == "ref-container" { &a } else if c.g.rng.chance(1, 4) { &a } else { &v1 };
+            let r = if rw.ends_with("container") { &b } else if c.g.rng.chance(1, 4) { &b } else { &v2 };
+            let lf = c.pick_from(l, lw, &RECEIVERS);
+            let rf = c.pick_from(r, rw, &RHS);
+            c.binop("dot", l, r, lf, rf, "tensor");
+        }
+    }
+    // rejected: other name, other length
+    let other_name = c.tensor(&[(intern("q"), n)]);
+    let longer = c.tensor(&[(intern("s"), n + 1)]);
+    for (why, o) in [("different_name", &other_name), ("different_length", &longer)] {
+        for swap in [false, true] {
+            let (l, r) = if swap { (o, &a) } else { (&a, o) };
+            let lw = if c.g.rng.chance(1, 2) { "ref-container" } else { "ref-view" };
+            let lf = c.pick_from(l, lw, &RECEIVERS);
+            let rw = FORMS4[c.g.rng.below(4)];
+            let rf = c.pick_from(r, rw, &RHS);
+            c.binop("dot", l, r, lf, rf, "tensor.reject");
+            c.g.count(&format!("reject.dot.{}", why));
+        }
+    }
+}
+
+fn all_lens(max_d: usize, max_len: usize, max_elems: usize) -> Vec<Vec<usize>> {
+    let mut out: Vec<Vec<usize>> = vec![vec![]];
+    let mut frontier: Vec<Vec<usize>> = vec![vec![]];
+    for _ in 0..max_d {
+        let mut next = vec![];
+        for p in &frontier {
+            for l in 1..=max_len {
+                let mut q = p.clone();
+                q.push(l);
+                if q.iter().product::<usize>() <= max_elems {
+                    next.push(q);
+                }
+            }
+        }
+        out.extend(next.iter().cloned());
+        frontier = next;
+    }
+    out
+}
+
+pub fn gen(g: &mut Gen) {
+    let thorough = g.thorough;
+    // elementwise: every small shape with Fp, a sample with Rat / i64
+    let lens_list = if thorough { all_lens(3, 5, 60) } else { all_lens(3, 3, 18) };
+    let reps = if thorough { 3 } else { 1 };
+    for lens in lens_list.iter().cycle().take(lens_list.len() * reps) {
+        gen_elementwise_case(g, Ety::Fp, lens);
+        if thorough || g.rng.chance(1, 3) {
+            gen_elementwise_case(g, Ety::Rat, lens);
+        }
+        // the i64 runner of the harness is a reduced one: D in {1, 2}, main flavours only
+        let i64_ok = lens.len() == 1 || lens.len() == 2;
+        if i64_ok && g.rng.chance(1, 3) {
+            gen_elementwise_case(g, Ety::I64, lens);
+        }
+        if i64_ok && g.rng.chance(1, 3) {
+            gen_elementwise_case(g, Ety::F64, lens);
+        }
+        if thorough || g.rng.chance(1, 2) {
+            let e = if i64_ok { [Ety::Fp, Ety::Rat, Ety::I64, Ety::F64][g.rng.below(4)] } else { [Ety::Fp, Ety::Rat][g.rng.below(2)] };
+            gen_elementwise_reject_case(g, e, lens);
+        }
+        if thorough || g.rng.chance(1, 3) {
+            let e = [Ety::Fp, Ety::Rat][g.rng.below(2)];
+            gen_scalar_case(g, e, lens);
+        }
+    }
+    gen_scalar_case(g, Ety::I64, &[2, 3]);
+    gen_scalar_case(g, Ety::F64, &[3, 2]);
+    gen_scalar_case(g, Ety::Rat, &[3, 2]);
+    gen_scalar_case(g, Ety::Fp, &[]);
+    // matrix multiplication: all M x N . N x L up to the tier's bound for Fp
+    let (mm, mn, ml) = if thorough { (7, 8, 7) } else { (4, 5, 3) };
+    for m in 1..=mm {
+        for n in 1..=mn {
+            for l in 1..=ml {
+                let full = thorough && (m <= 4 && n <= 5 && l <= 4 || g.rng.chance(1, 2));
+                if full || !thorough {
+                    gen_matmul_case(g, Ety::Fp, m, n, l);
+                }
+                if g.rng.chance(1, if thorough { 6 } else { 8 }) {
+                    gen_matmul_case(g, Ety::Rat, m, n, l);
+                }
+                if g.rng.chance(1, 20) {
+                    gen_matmul_case(g, Ety::I64, m, n, l);
+                }
+                if g.rng.chance(1, 20) {
+                    gen_matmul_case(g, Ety::F64, m, n, l);
+                }
+                if g.rng.chance(1, 6) {
+                    let e = [Ety::Fp, Ety::Rat, Ety::I64, Ety::F64][g.rng.below(4)];
+                    gen_agree_case(g, e, m, n, l);
+                }
+            }
+        }
+    }
+    if thorough {
+        gen_matmul_case(g, Ety::Fp, 7, 8, 7);
+        gen_matmul_case(g, Ety::Rat, 7, 8, 7);
+    } else {
+        gen_matmul_case(g, Ety::Fp, 4, 5, 3);
+        gen_matmul_case(g, Ety::Rat, 4, 5, 3);
+        gen_matmul_case(g, Ety::I64, 4, 5, 3);
+        gen_matmul_case(g, Ety::F64, 4, 5, 3);
+    }
+    for _ in 0..(if thorough { 60 } else { 12 }) {
+        let e = [Ety::Fp, Ety::Rat, Ety::I64, Ety::F64][g.rng.below(4)];
+        gen_matmul_reject_case(g, e);
+    }
+    // matrices: elementwise, negation, scalars
+    let ms = if thorough { 5 } else { 3 };
+    for r in 1..=ms {
+        for c in 1..=ms {
+            gen_matrix_elementwise_case(g, Ety::Fp, r, c);
+            if g.rng.chance(1, 3) {
+                gen_matrix_elementwise_case(g, Ety::Rat, r, c);
+            }
+            if g.rng.chance(1, 6) {
+                gen_matrix_elementwise_case(g, Ety::I64, r, c);
+            }
+            if g.rng.chance(1, 6) {
+                gen_matrix_elementwise_case(g, Ety::F64, r, c);
+            }
+        }
+    }
+    // scalar products
+    for n in 1..=(if thorough { 9 } else { 5 }) {
+        gen_dot_case(g, Ety::Fp, n);
+        gen_dot_case(g, Ety::Rat, n);
+        if n <= 3 {
+            gen_dot_case(g, Ety::I64, n);
+            gen_dot_case(g, Ety::F64, n);
+        }
+    }
+    // catalogue of operator impls found in the sources (so that a new form cannot be missed)
+    scan_catalogue(g);
+}
+
+/// Scans the macro invocation lists of the two operations.rs files: each invocation is one
+/// `impl <Op> for <left> … <right>` of the 16 x 3 catalogue.  Emitted as counters; the generator
+/// above covers each (op, left form, right form) and the evidence shows both tables.
+fn scan_catalogue(g: &mut Gen) {
+    let repo = std::env::var("EASYML_REPO").unwrap_or_else(|_| "/repo".to_string());
+    for (file, tag) in [("src/tensors/operations.rs", "tensor"), ("src/matrices/operations.rs", "matrix")] {
+        let path = format!("{}/{}", repo, file);
+        let text = match std::fs::read_to_string(&path) {
+            Ok(t) => t,
+            Err(_) => {
+                g.count(&format!("catalogue.{}.unreadable", tag));
+                continue;
+            }
+        };
+        for line in text.lines() {
+            let line = line.trim_start();
+            if line.starts_with("macro_rules!") || !line.contains("!(impl ") {
+                continue;
+            }
+            // e.g. tensor_view_reference_tensor_value_operation_iter!(impl Add for TensorView { fn add } …
+            let mac = line.split('!').next().unwrap_or("");
+            let op = line.split("!(impl ").nth(1).and_then(|s| s.split_whitespace().next()).unwrap_or("?");
+            if mac.ends_with("_scalar") {
+                g.count(&format!("catalogue.{}.scalar.{}", tag, op));
+                continue;
+            }
+            let stem = mac.trim_end_matches("_iter").trim_end_matches("_operation");
+            // stem = <left kind>_<reference|value>_<right kind>_<reference|value>
+            let parts: Vec<&str> = stem.split('_').collect();
+            let mut sides = vec![];
+            let mut cur: Vec<&str> = vec![];
+            for p in parts {
+                if p == "reference" || p == "value" {
+                    let kind = if cur.contains(&"view") { "view" } else { "container" };
+                    sides.push(format!("{}-{}", if p == "value" { "owned" } else { "ref" }, kind));
+                    cur.clear();
+                } else {
+                    cur.push(p);
+                }
+            }
+            if sides.len() == 2 {
+                g.count(&format!("catalogue.{}.{}.{}+{}", tag, op, sides[0], sides[1]));
+            } else {
+                g.count(&format!("catalogue.{}.unparsed", tag));
+            }
+        }
+    }
+}
+
+// ---------------------------------------------------------------------------------------------
+// execution against the implementation
+// ---------------------------------------------------------------------------------------------
+
+#[derive(Clone)]
+enum Ad {
+    Access(Vec<&'static str>),
+    Transpose(Vec<&'static str>),
+    Reverse(Vec<&'static str>),
+    Rename(Vec<&'static str>),
+    Range(Vec<(usize, usize)>),
+}
+
+#[derive(Clone)]
+enum MAd {
+    Range((usize, usize), (usize, usize)),
+    Reverse(bool, bool),
+}
+
+fn panic_or<T>(r: Result<T, PanicKind>, f: impl FnOnce(T) -> String) -> String {
+    match r {
+        Ok(v) => f(v),
+        Err(k) => panic_str(k),
+    }
+}
+
+/// binds `$x` to the operand in the requested flavour and evaluates `$body`.
+/// To keep the number of monomorphised operator instances (and the compile time)
+/// bounded, a binary operation pairs the six main flavours with each other, and each
+/// of the six statically typed extra flavours with `rt` / `bv` on the other side.
+macro_rules! with_t_main {
+    ($form:expr, $o:expr, $x:ident => $body:expr) => {
+        match $form {
+            "t" => { let $x = $o.plain(); $body }
+            "rt" => { let tmp = $o.plain(); let $x = &tmp; $body }
+            "v" => { let $x = TensorView::from($o.plain()); $body }
+            "rv" => { let tmp = TensorView::from($o.plain()); let $x = &tmp; $body }
+            "bv" => { let $x = TensorView::from($o.boxed()); $body }
+            "rbv" => { let tmp = TensorView::from($o.boxed()); let $x = &tmp; $body }
+            other => panic!("unknown main tensor form {}", other),
+        }
+    };
+}
+macro_rules! with_t_extra {
+    ($form:expr, $o:expr, $x:ident => $body:expr) => {
+        match $form {
+            "qv" => { let tmp = $o.plain(); let $x = TensorView::from(&tmp); $body }
+            "rqv" => { let tmp = $o.plain(); let tmp2 = TensorView::from(&tmp); let $x = &tmp2; $body }
+            "av" => { let $x = TensorView::from($o.access()); $body }
+            "rav" => { let tmp = TensorView::from($o.access()); let $x = &tmp; $body }
+            "xv" => { let $x = TensorView::from($o.transposed()); $body }
+            "rxv" => { let tmp = TensorView::from($o.transposed()); let $x = &tmp; $body }
+            other => panic!("unknown extra tensor form {}", other),
+        }
+    };
+}
+macro_rules! with_t_two {
+    ($form:expr, $o:expr, $x:ident => $body:expr) => {
+        match $form {
+            "rt" => { let tmp = $o.plain(); let $x = &tmp; $body }
+            "bv" => { let $x = TensorView::from($o.boxed()); $body }
+            other => panic!("an extra flavour must be paired with rt or bv, not {}", other),
+        }
+    };
+}
+macro_rules! with_t_pair {
+    ($lf:expr, $l:expr, $x:ident, $rf:expr, $r:expr, $y:ident => $body:expr) => {
+        if is_main_t($lf) && is_main_t($rf) {
+            with_t_main!($lf, $l, $x => with_t_main!($rf, $r, $y => $body))
+        } else if is_main_t($rf) {
+            with_t_extra!($lf, $l, $x => with_t_two!($rf, $r, $y => $body))
+        } else {
+            with_t_two!($lf, $l, $x => with_t_extra!($rf, $r, $y => $body))
+        }
+    };
+}
+/// by-reference receivers of `elementwise*` and `scalar_product`
+macro_rules! with_t_ref {
+    ($form:expr, $o:expr, $x:ident => $body:expr) => {
+        match $form {
+            "rt" => { let tmp = $o.plain(); let $x = &tmp; $body }
+            "rv" => { let tmp = TensorView::from($o.plain()); let $x = &tmp; $body }
+            "rav" => { let tmp = TensorView::from($o.access()); let $x = &tmp; $body }
+            "rbv" => { let tmp = TensorView::from($o.boxed()); let $x = &tmp; $body }
+            other => panic!("unknown receiver form {}", other),
+        }
+    };
+}
+/// right-hand sides of `elementwise*` and `scalar_product` (`Into<TensorView>`)
+macro_rules! with_t_rhs {
+    ($form:expr, $o:expr, $x:ident => $body:expr) => {
+        match $form {
+            "t" => { let $x = $o.plain(); $body }
+            "rt" => { let tmp = $o.plain(); let $x = &tmp; $body }
+            "rv" => { let tmp = TensorView::from($o.plain()); let $x = &tmp; $body }
+            "bv" => { let $x = TensorView::from($o.boxed()); $body }
+            "rbv" => { let tmp = TensorView::from($o.boxed()); let $x = &tmp; $body }
+            other => panic!("unknown right-hand form {}", other),
+        }
+    };
+}
+/// single operands (scalar broadcasts)
+macro_rules! with_t {
+    ($form:expr, $o:expr, $x:ident => $body:expr) => {
+        if is_main_t($form) { with_t_main!($form, $o, $x => $body) } else { with_t_extra!($form, $o, $x => $body) }
+    };
+}
+macro_rules! with_m_main {
+    ($form:expr, $o:expr, $x:ident => $body:expr) => {
+        match $form {
+            "m" => { let $x = $o.plain(); $body }
+            "rm" => { let tmp = $o.plain(); let $x = &tmp; $body }
+            "w" => { let $x = MatrixView::from($o.plain()); $body }
+            "rw" => { let tmp = MatrixView::from($o.plain()); let $x = &tmp; $body }
+            "bw" => { let $x = MatrixView::from($o.boxed()); $body }
+            "rbw" => { let tmp = MatrixView::from($o.boxed()); let $x = &tmp; $body }
+            other => panic!("unknown main matrix form {}", other),
+        }
+    };
+}
+macro_rules! with_m_extra {
+    ($form:expr, $o:expr, $x:ident => $body:expr) => {
+        match $form {
+            "qw" => { let tmp = $o.plain(); let $x = MatrixView::from(&tmp); $body }
+            "rqw" => { let tmp = $o.plain(); let tmp2 = MatrixView::from(&tmp); let $x = &tmp2; $body }
+            "gw" => { let $x = MatrixView::from($o.ranged()); $body }
+            "rgw" => { let tmp = MatrixView::from($o.ranged()); let $x = &tmp; $body }
+            "tw" => { let $x = MatrixView::from($o.of_tensor_access()); $body }
+            "rtw" => { let tmp = MatrixView::from($o.of_tensor_access()); let $x = &tmp; $body }
+            other => panic!("unknown extra matrix form {}", other),
+        }
+    };
+}
+macro_rules! with_m_two {
+    ($form:expr, $o:expr, $x:ident => $body:expr) => {
+        match $form {
+            "rm" => { let tmp = $o.plain(); let $x = &tmp; $body }
+            "bw" => { let $x = MatrixView::from($o.boxed()); $body }
+            other => panic!("an extra flavour must be paired with rm or bw, not {}", other),
+        }
+    };
+}
+macro_rules! with_m_pair {
+    ($lf:expr, $l:expr, $x:ident, $rf:expr, $r:expr, $y:ident => $body:expr) => {
+        if is_main_m($lf) && is_main_m($rf) {
+            with_m_main!($lf, $l, $x => with_m_main!($rf, $r, $y => $body))
+        } else if is_main_m($rf) {
+            with_m_extra!($lf, $l, $x => with_m_two!($rf, $r, $y => $body))
+        } else {
+            with_m_two!($lf, $l, $x => with_m_extra!($rf, $r, $y => $body))
+        }
+    };
+}
+macro_rules! with_m {
+    ($form:expr, $o:expr, $x:ident => $body:expr) => {
+        if is_main_m($form) { with_m_main!($form, $o, $x => $body) } else { with_m_extra!($form, $o, $x => $body) }
+    };
+}
+
+macro_rules! same_d {
+    ($a:expr, $b:expr, $x:ident, $y:ident => $body:expr) => {
+        match ($a, $b) {
+            (AnyT::D0($x), AnyT::D0($y)) => $body,
+            (AnyT::D1($x), AnyT::D1($y)) => $body,
+            (AnyT::D2($x), AnyT::D2($y)) => $body,
+            (AnyT::D3($x), AnyT::D3($y)) => $body,
+            _ => "bad-op".to_string(),
+        }
+    };
+}
+macro_rules! any_d {
+    ($a:expr, $x:ident => $body:expr) => {
+        match $a {
+            AnyT::D0($x) => $body,
+            AnyT::D1($x) => $body,
+            AnyT::D2($x) => $body,
+            AnyT::D3($x) => $body,
+        }
+    };
+}
+
+
+// ----- lite variants (Rat and i64 runs: the four main flavours t/rt/bv/rbv; i64 also only D = 1, 2),
+// to bound compile time; the Fp runs use every flavour -----
+macro_rules! with_t_main_lite {
+    ($form:expr, $o:expr, $x:ident => $body:expr) => {
+        match $form {
+            "t" => { let $x = $o.plain(); $body }
+            "rt" => { let tmp = $o.plain(); let $x = &tmp; $body }
+            "bv" => { let $x = TensorView::from($o.boxed()); $body }
+            "rbv" => { let tmp = TensorView::from($o.boxed()); let $x = &tmp; $body }
+            other => panic!("unknown lite tensor form {}", other),
+        }
+    };
+}
+macro_rules! with_t_pair_lite {
+    ($lf:expr, $l:expr, $x:ident, $rf:expr, $r:expr, $y:ident => $body:expr) => {
+        with_t_main_lite!($lf, $l, $x => with_t_main_lite!($rf, $r, $y => $body))
+    };
+}
+macro_rules! with_t_lite {
+    ($form:expr, $o:expr, $x:ident => $body:expr) => { with_t_main_lite!($form, $o, $x => $body) };
+}
+macro_rules! with_t_ref_lite {
+    ($form:expr, $o:expr, $x:ident => $body:expr) => {
+        match $form {
+            "rt" => { let tmp = $o.plain(); let $x = &tmp; $body }
+            "rbv" => { let tmp = TensorView::from($o.boxed()); let $x = &tmp; $body }
+            other => panic!("unknown lite receiver form {}", other),
+        }
+    };
+}
+macro_rules! with_t_rhs_lite {
+    ($form:expr, $o:expr, $x:ident => $body:expr) => { with_t_main_lite!($form, $o, $x => $body) };
+}
+macro_rules! with_m_main_lite {
+    ($form:expr, $o:expr, $x:ident => $body:expr) => {
+        match $form {
+            "m" => { let $x = $o.plain(); $body }
+            "rm" => { let tmp = $o.plain(); let $x = &tmp; $body }
+            "bw" => { let $x = MatrixView::from($o.boxed()); $body }
+            "rbw" => { let tmp = MatrixView::from($o.boxed()); let $x = &tmp; $body }
+            other => panic!("unknown lite matrix form {}", other),
+        }
+    };
+}
+macro_rules! with_m_pair_lite {
+    ($lf:expr, $l:expr, $x:ident, $rf:expr, $r:expr, $y:ident => $body:expr) => {
+        with_m_main_lite!($lf, $l, $x => with_m_main_lite!($rf, $r, $y => $body))
+    };
+}
+macro_rules! with_m_lite {
+    ($form:expr, $o:expr, $x:ident => $body:expr) => { with_m_main_lite!($form, $o, $x => $body) };
+}
+macro_rules! same_d_lite {
+    ($a:expr, $b:expr, $x:ident, $y:ident => $body:expr) => {
+        match ($a, $b) {
+            (AnyT::D1($x), AnyT::D1($y)) => $body,
+            (AnyT::D2($x), AnyT::D2($y)) => $body,
+            _ => "bad-op".to_string(),
+        }
+    };
+}
+macro_rules! any_d_lite {
+    ($a:expr, $x:ident => $body:expr) => {
+        match $a {
+            AnyT::D1($x) => $body,
+            AnyT::D2($x) => $body,
+            _ => "bad-op".to_string(),
+        }
+    };
+}
+
+macro_rules! runner_for {
+    ($modname:ident, $T:ty, $pair_t:ident, $one_t:ident, $ref_t:ident, $rhs_t:ident, $pair_m:ident, $one_m:ident, $same_d:ident, $any_d:ident) => {
+        pub mod $modname {
+            use super::*;
+            type T = $T;
+            pub type Dyn<const D: usize> = Box<dyn TensorRef<T, D>>;
+            pub type MDyn = Box<dyn MatrixRef<T>>;
+
+            #[derive(Clone)]
+            pub struct TOp<const D: usize> {
+                base: Tensor<T, D>,
+                ads: Vec<Ad>,
+            }
+
+            fn wrap<const D: usize>(cur: Dyn<D>, ad: &Ad) -> Dyn<D> {
+                match ad {
+                    Ad::Access(n) => Box::new(TensorAccess::from(cur, names_array(n))),
+                    Ad::Transpose(n) => Box::new(TensorTranspose::from(cur, names_array(n))),
+                    Ad::Reverse(n) => Box::new(TensorReverse::from(cur, &n[..])),
+                    Ad::Rename(n) => Box::new(TensorRename::from(cur, names_array(n))),
+                    Ad::Range(r) => {
+                        assert_eq!(r.len(), D);
+                        let ranges: [Option<(usize, usize)>; D] = std::array::from_fn(|i| Some(r[i]));
+                        Box::new(TensorRange::from_all(cur, ranges).expect("range"))
+                    }
+                }
+            }
+
+            impl<const D: usize> TOp<D> {
+                pub fn boxed(&self) -> Dyn<D> {
+                    let mut cur: Dyn<D> = Box::new(self.base.clone());
+                    for ad in &self.ads {
+                        cur = wrap(cur, ad);
+                    }
+                    cur
+                }
+                pub fn plain(&self) -> Tensor<T, D> {
+                    assert!(self.ads.is_empty(), "form needs a plain tensor");
+                    self.base.clone()
+                }
+                pub fn access(&self) -> TensorAccess<T, Tensor<T, D>, D> {
+                    match &self.ads[..] {
+                        [Ad::Access(n)] => TensorAccess::from(self.base.clone(), names_array(n)),
+                        _ => panic!("form needs exactly one access adaptor"),
+                    }
+                }
+                pub fn transposed(&self) -> TensorTranspose<T, Tensor<T, D>, D> {
+                    match &self.ads[..] {
+                        [Ad::Transpose(n)] => TensorTranspose::from(self.base.clone(), names_array(n)),
+                        _ => panic!("form needs exactly one transpose adaptor"),
+                    }
+                }
+            }
+
+            #[derive(Clone)]
+            pub struct MOp {
+                base: Matrix<T>,
+                /// `Some`: the operand is `MatrixRefTensor` over this tensor operand (`base` unused)
+                tsrc: Option<TOp<2>>,
+                ads: Vec<MAd>,
+            }
+
+            fn mwrap(cur: MDyn, ad: &MAd) -> MDyn {
+                match ad {
+                    MAd::Range(r, c) => Box::new(MatrixRange::from(cur, *r, *c)),
+                    MAd::Reverse(r, c) => Box::new(MatrixReverse::from(cur, Reverse { rows: *r, columns: *c })),
+                }
+            }
+
+            impl MOp {
+                pub fn boxed(&self) -> MDyn {
+                    let mut cur: MDyn = match &self.tsrc {
+                        Some(t) => Box::new(MatrixRefTensor::from(t.boxed())),
+                        None => Box::new(self.base.clone()),
+                    };
+                    for ad in &self.ads {
+                        cur = mwrap(cur, ad);
+                    }
+                    cur
+                }
+                pub fn plain(&self) -> Matrix<T> {
+                    assert!(self.ads.is_empty() && self.tsrc.is_none(), "form needs a plain matrix");
+                    self.base.clone()
+                }
+                pub fn of_tensor_access(&self) -> MatrixRefTensor<T, TensorAccess<T, Tensor<T, 2>, 2>> {
+                    match (&self.tsrc, &self.ads[..]) {
+                        (Some(t), []) => MatrixRefTensor::from(t.access()),
+                        _ => panic!("form needs a matrix view of one accessed tensor"),
+                    }
+                }
+                pub fn ranged(&self) -> MatrixRange<T, Matrix<T>> {
+                    match &self.ads[..] {
+                        [MAd::Range(r, c)] if self.tsrc.is_none() => MatrixRange::from(self.base.clone(), *r, *c),
+                        _ => panic!("form needs exactly one range adaptor"),
+                    }
+                }
+            }
+
+            fn show_tensor<const D: usize>(t: &Tensor<T, D>) -> String {
+                format!("shape={} data={}", show_shape(&t.shape()), show_vals(t.iter()))
+            }
+            fn show_matrix(m: &Matrix<T>) -> String {
+                let (r, c) = m.size();
+                format!("size={}x{} data={}", r, c, show_vals(m.row_major_iter()))
+            }
+
+            fn pm<const D: usize>(op: &str, l: &TOp<D>, r: &TOp<D>, lf: &str, rf: &str) -> String {
+                let res: Result<Tensor<T, D>, PanicKind> = $pair_t!(lf, l, x, rf, r, y => {
+                    if op == "add" { catch(|| x + y) } else { catch(|| x - y) }
+                });
+                panic_or(res, |t| show_tensor(&t))
+            }
+
+            fn ewise<const D: usize>(l: &TOp<D>, r: &TOp<D>, lf: &str, rf: &str, kind: &str) -> String {
+                let res: Result<Tensor<T, D>, PanicKind> = $ref_t!(lf, l, x => $rhs_t!(rf, r, y => {
+                    match kind {
+                        "e" => catch(|| x.elementwise(y, |a, b| a.clone() * b.clone() - b)),
+                        "ei" => catch(|| x.elementwise_with_index(y, |_i, a, b| a.clone() * b.clone() - b)),
+                        "er" => catch(|| x.elementwise_reference(y, |a, b| a.clone() * b.clone() - b.clone())),
+                        "eri" => catch(|| x.elementwise_reference_with_index(y, |_i, a, b| a.clone() * b.clone() - b.clone())),
+                        other => panic!("unknown elementwise kind {}", other),
+                    }
+                }));
+                panic_or(res, |t| show_tensor(&t))
+            }
+
+            fn mul2(l: &TOp<2>, r: &TOp<2>, lf: &str, rf: &str) -> String {
+                let res: Result<Tensor<T, 2>, PanicKind> =
+                    $pair_t!(lf, l, x, rf, r, y => catch(|| x * y));
+                panic_or(res, |t| show_tensor(&t))
+            }
+
+            fn dot1(l: &TOp<1>, r: &TOp<1>, lf: &str, rf: &str) -> String {
+                let res: Result<T, PanicKind> =
+                    $ref_t!(lf, l, x => $rhs_t!(rf, r, y => catch(|| x.scalar_product(y))));
+                panic_or(res, |v| format!("value={}", v.show()))
+            }
+
+            fn scalar<const D: usize>(op: &str, o: &TOp<D>, s: &T, f: &str, sf: &str) -> String {
+                let res: Result<Tensor<T, D>, PanicKind> = $one_t!(f, o, x => {
+                    let s = s.clone();
+                    match (op, sf) {
+                        ("sadd", "s") => catch(|| x + s),
+                        ("sadd", _) => catch(|| x + &s),
+                        ("ssub", "s") => catch(|| x - s),
+                        ("ssub", _) => catch(|| x - &s),
+                        ("smul", "s") => catch(|| x * s),
+                        ("smul", _) => catch(|| x * &s),
+                        ("sdiv", "s") => catch(|| x / s),
+                        (_, _) => catch(|| x / &s),
+                    }
+                });
+                panic_or(res, |t| show_tensor(&t))
+            }
+
+            fn mbin(op: &str, l: &MOp, r: &MOp, lf: &str, rf: &str) -> String {
+                let res: Result<Matrix<T>, PanicKind> = $pair_m!(lf, l, x, rf, r, y => {
+                    match op {
+                        "add" => catch(|| x + y),
+                        "sub" => catch(|| x - y),
+                        _ => catch(|| x * y),
+                    }
+                });
+                panic_or(res, |m| show_matrix(&m))
+            }
+
+            fn mscalar(op: &str, o: &MOp, s: &T, f: &str, sf: &str) -> String {
+                let res: Result<Matrix<T>, PanicKind> = $one_m!(f, o, x => {
+                    let s = s.clone();
+                    match (op, sf) {
+                        ("sadd", "s") => catch(|| x + s),
+                        ("sadd", _) => catch(|| x + &s),
+                        ("ssub", "s") => catch(|| x - s),
+                        ("ssub", _) => catch(|| x - &s),
+                        ("smul", "s") => catch(|| x * s),
+                        ("smul", _) => catch(|| x * &s),
+                        ("sdiv", "s") => catch(|| x / s),
+                        (_, _) => catch(|| x / &s),
+                    }
+                });
+                panic_or(res, |m| show_matrix(&m))
+            }
+
+            fn mmap(o: &MOp, f: &str) -> String {
+                let res: Result<Matrix<T>, PanicKind> =
+                    $one_m!(f, o, x => catch(|| x.map(|e| e.clone() * e.clone() - e)));
+                panic_or(res, |m| show_matrix(&m))
+            }
+
+            fn mneg(o: &MOp, f: &str) -> String {
+                let res: Result<Matrix<T>, PanicKind> = $one_m!(f, o, x => catch(|| -x));
+                panic_or(res, |m| show_matrix(&m))
+            }
+
+            pub enum AnyT {
+                D0(TOp<0>), D1(TOp<1>), D2(TOp<2>), D3(TOp<3>),
+            }
+
+            #[derive(Default)]
+            pub struct Env {
+                tens: Vec<(String, AnyT)>,
+                mats: Vec<(String, MOp)>,
+            }
+
+            fn define_view<const D: usize>(src: &TOp<D>, kind: &str, arg: &str) -> Result<(TOp<D>, String), String> {
+                let ad = match kind {
+                    "access" => Ad::Access(parse_names(arg)),
+                    "transpose" => Ad::Transpose(parse_names(arg)),
+                    "reverse" => Ad::Reverse(parse_names(arg)),
+                    "rename" => Ad::Rename(parse_names(arg)),
+                    "range" => Ad::Range(parse_pairs(arg)),
+                    _ => return Err("bad-op".into()),
+                };
+                let mut o = src.clone();
+                o.ads.push(ad);
+                match catch(|| TensorView::from(o.boxed()).shape()) {
+                    Ok(shape) => {
+                        let s = format!("ok shape={}", show_shape(&shape));
+                        Ok((o, s))
+                    }
+                    Err(_) => Err("none".into()),
+                }
+            }
+
+            impl Env {
+                pub fn tensor(&self, n: &str) -> Option<&AnyT> {
+                    self.tens.iter().find(|(k, _)| k == n).map(|(_, v)| v)
+                }
+                pub fn matrix(&self, n: &str) -> Option<&MOp> {
+                    self.mats.iter().find(|(k, _)| k == n).map(|(_, v)| v)
+                }
+
+                pub fn step(&mut self, toks: &[&str]) -> String {
+                    match toks {
+                        ["t", name, shape_s, vals_s] => {
+                            let shape = parse_shape(shape_s);
+                            let vals: Vec<T> = split_comma(vals_s).iter().map(|s| <T as Elem>::parse(s)).collect();
+                            macro_rules! mk {
+                                ($D:literal, $V:ident) => {{
+                                    match catch(|| Tensor::<T, $D>::from(shape_array(&shape), vals)) {
+                                        Ok(t) => {
+                                            self.tens.insert(0, (name.to_string(), AnyT::$V(TOp { base: t, ads: vec![] })));
+                                            "ok".to_string()
+                                        }
+                                        Err(k) => panic_str(k),
+                                    }
+                                }};
+                            }
+                            match shape.len() {
+                                0 => mk!(0, D0), 1 => mk!(1, D1), 2 => mk!(2, D2), 3 => mk!(3, D3),
+                                _ => "bad-op".into(),
+                            }
+                        }
+                        ["v", name, src, kind, arg] => {
+                            let r = match self.tensor(src) {
+                                None => return "no-operand".into(),
+                                Some(AnyT::D0(o)) => define_view(o, kind, arg).map(|(o, s)| (AnyT::D0(o), s)),
+                                Some(AnyT::D1(o)) => define_view(o, kind, arg).map(|(o, s)| (AnyT::D1(o), s)),
+                                Some(AnyT::D2(o)) => define_view(o, kind, arg).map(|(o, s)| (AnyT::D2(o), s)),
+                                Some(AnyT::D3(o)) => define_view(o, kind, arg).map(|(o, s)| (AnyT::D3(o), s)),
+                            };
+                            match r {
+                                Ok((o, s)) => {
+                                    self.tens.insert(0, (name.to_string(), o));
+                                    s
+                                }
+                                Err(s) => s,
+                            }
+                        }
+                        ["m", name, rows_s, cols_s, vals_s] => {
+                            let (r, c): (usize, usize) = (rows_s.parse().unwrap(), cols_s.parse().unwrap());
+                            let vals: Vec<T> = split_comma(vals_s).iter().map(|s| <T as Elem>::parse(s)).collect();
+                            match catch(|| Matrix::from_flat_row_major((r, c), vals)) {
+                                Ok(m) => {
+                                    self.mats.insert(0, (name.to_string(), MOp { base: m, tsrc: None, ads: vec![] }));
+                                    "ok".into()
+                                }
+                                Err(k) => panic_str(k),
+                            }
+                        }
+                        ["w", name, src, "oftensor"] => {
+                            let t = match self.tensor(src) {
+                                Some(AnyT::D2(t)) => t.clone(),
+                                Some(_) => return "none".into(),
+                                None => return "no-operand".into(),
+                            };
+                            match catch(|| {
+                                let v = TensorView::from(t.boxed());
+                                let shape = v.shape();
+                                let data: Vec<T> = v.iter().collect();
+                                (shape, Matrix::from_flat_row_major((shape[0].1, shape[1].1), data))
+                            }) {
+                                Ok((shape, m)) => {
+                                    self.mats.insert(0, (name.to_string(), MOp { base: m, tsrc: Some(t), ads: vec![] }));
+                                    format!("ok size={}x{}", shape[0].1, shape[1].1)
+                                }
+                                Err(_) => "none".into(),
+                            }
+                        }
+                        ["w", name, src, kind, args @ ..] => {
+                            let o = match self.matrix(src) {
+                                None => return "no-operand".into(),
+                                Some(o) => o,
+                            };
+                            let ad = match (*kind, args) {
+                                ("range", [rs, cs]) => {
+                                    let (r, c) = (parse_pairs(rs), parse_pairs(cs));
+                                    if r.len() != 1 || c.len() != 1 {
+                                        return "none".into();
+                                    }
+                                    MAd::Range(r[0], c[0])
+                                }
+                                ("reverse", [flags]) => MAd::Reverse(flags.starts_with('1'), flags.ends_with('1')),
+                                _ => return "none".into(),
+                            };
+                            let mut o = o.clone();
+                            o.ads.push(ad);
+                            match catch(|| MatrixView::from(o.boxed()).size()) {
+                                Ok((r, c)) => {
+                                    self.mats.insert(0, (name.to_string(), o));
+                                    format!("ok size={}x{}", r, c)
+                                }
+                                Err(_) => "none".into(),
+                            }
+                        }
+                        [op @ ("add" | "sub"), a, b, rest @ ..] => {
+                            let via = opt_arg("via", rest).unwrap_or("rt-rt");
+                            let (lf, rf) = via.split_once('-').expect("via=l-r");
+                            if let (Some(x), Some(y)) = (self.tensor(a), self.tensor(b)) {
+                                $same_d!(x, y, p, q => pm(op, p, q, lf, rf))
+                            } else if let (Some(x), Some(y)) = (self.matrix(a), self.matrix(b)) {
+                                mbin(op, x, y, lf, rf)
+                            } else {
+                                "no-operand".into()
+                            }
+                        }
+                        ["ewise", a, b, rest @ ..] => {
+                            let via = opt_arg("via", rest).unwrap_or("rt-rt-e");
+                            let parts: Vec<&str> = via.split('-').collect();
+                            if let (Some(x), Some(y)) = (self.tensor(a), self.tensor(b)) {
+                                $same_d!(x, y, p, q => ewise(p, q, parts[0], parts[1], parts[2]))
+                            } else {
+                                "no-operand".into()
+                            }
+                        }
+                        ["mul", a, b, rest @ ..] => {
+                            let via = opt_arg("via", rest).unwrap_or("rt-rt");
+                            let (lf, rf) = via.split_once('-').expect("via=l-r");
+                            if let (Some(x), Some(y)) = (self.tensor(a), self.tensor(b)) {
+                                match (x, y) {
+                                    (AnyT::D2(p), AnyT::D2(q)) => mul2(p, q, lf, rf),
+                                    _ => "bad-op".into(),
+                                }
+                            } else if let (Some(x), Some(y)) = (self.matrix(a), self.matrix(b)) {
+                                mbin("mul", x, y, lf, rf)
+                            } else {
+                                "no-operand".into()
+                            }
+                        }
+                        ["dot", a, b, rest @ ..] => {
+                            let via = opt_arg("via", rest).unwrap_or("rt-rt");
+                            let (lf, rf) = via.split_once('-').expect("via=l-r");
+                            match (self.tensor(a), self.tensor(b)) {
+                                (Some(AnyT::D1(p)), Some(AnyT::D1(q))) => dot1(p, q, lf, rf),
+                                (Some(_), Some(_)) => "bad-op".into(),
+                                _ => "no-operand".into(),
+                            }
+                        }
+                        [op @ ("sadd" | "ssub" | "smul" | "sdiv"), a, s, rest @ ..] => {
+                            let via = opt_arg("via", rest).unwrap_or("rt-s");
+                            let (f, sf) = via.split_once('-').expect("via=f-s");
+                            let s = <T as Elem>::parse(s);
+                            if let Some(x) = self.tensor(a) {
+                                $any_d!(x, p => scalar(op, p, &s, f, sf))
+                            } else if let Some(x) = self.matrix(a) {
+                                mscalar(op, x, &s, f, sf)
+                            } else {
+                                "no-operand".into()
+                            }
+                        }
+                        ["mmap", a, rest @ ..] => {
+                            let f = opt_arg("via", rest).unwrap_or("rm");
+                            match self.matrix(a) {
+                                Some(x) => mmap(x, f),
+                                None => "no-operand".into(),
+                            }
+                        }
+                        ["neg", a, rest @ ..] => {
+                            let f = opt_arg("via", rest).unwrap_or("rm");
+                            match self.matrix(a) {
+                                Some(x) => mneg(x, f),
+                                None => "no-operand".into(),
+                            }
+                        }
+                        _ => "bad-op".into(),
+                    }
+                }
+            }
+        }
+    };
+}
+
+runner_for!(run_fp, Fp, with_t_pair, with_t, with_t_ref, with_t_rhs, with_m_pair, with_m, same_d, any_d);
+runner_for!(run_rat, Rat, with_t_pair_lite, with_t_lite, with_t_ref_lite, with_t_rhs_lite, with_m_pair_lite, with_m_lite, same_d, any_d);
+runner_for!(run_f64, f64, with_t_pair_lite, with_t_lite, with_t_ref_lite, with_t_rhs_lite, with_m_pair_lite, with_m_lite, same_d_lite, any_d_lite);
+runner_for!(run_i64, i64, with_t_pair_lite, with_t_lite, with_t_ref_lite, with_t_rhs_lite, with_m_pair_lite, with_m_lite, same_d_lite, any_d_lite);
+
+enum Case {
+    None,
+    Fp(run_fp::Env),
+    Rat(run_rat::Env),
+    I64(run_i64::Env),
+    F64(run_f64::Env),
+}
+
+pub struct Runner {
+    case: Case,
+}
 
 impl Runner {
     pub fn new() -> Runner {
-        Runner
+        Runner { case: Case::None }
     }
 
-    pub fn step(&mut self, _toks: &[&str]) -> String {
-        "unimplemented".into()
+    pub fn step(&mut self, toks: &[&str]) -> String {
+        match toks {
+            ["@", "fp"] => { self.case = Case::Fp(Default::default()); "ok".into() }
+            ["@", "rat"] => { self.case = Case::Rat(Default::default()); "ok".into() }
+            ["@", "i64"] => { self.case = Case::I64(Default::default()); "ok".into() }
+            ["@", "f64"] => { self.case = Case::F64(Default::default()); "ok".into() }
+            _ => match &mut self.case {
+                Case::None => "no-case".into(),
+                Case::Fp(e) => e.step(toks),
+                Case::Rat(e) => e.step(toks),
+                Case::I64(e) => e.step(toks),
+                Case::F64(e) => e.step(toks),
+            },
+        }
     }
 }
